@@ -41,7 +41,7 @@ let handle (i : string list) (o : string list) =
     if not p then verdict_pfail "P_C07_wire_lengths"
     else if impl <> model then verdict_diff (String.concat "," (List.map hex_of_n model))
     else verdict_ok (N.leb two n)
-  | ["R"; b; l; e] ->
+  | [("R" | "Q"); b; l; e] ->
     let b = h b and l = h l and e = h e in
     let n = nblocks b l e in
     let model = reconstructed_b n l e in
@@ -52,6 +52,7 @@ let handle (i : string list) (o : string list) =
        if not p then verdict_pfail "P_C07_reconstruction"
        else if z <> n || b' <> model then verdict_diff (hex_of_n n ^ "," ^ hex_of_n model)
        else verdict_ok (N.leb two n)
+     | ["NONE"] -> verdict_ok false   (* the object was refused (Raptor blocks of 2 or 3 symbols) *)
      | _ -> failwith "bad R line")
   | _ -> failwith "unknown line kind"
 
